@@ -477,15 +477,18 @@ async fn main(plan: Plan) -> Outcome {
                         );
                     }
                 }
-                // (c) no two executions use the same plan target.
-                for a in 0..frames.len() {
-                    for b in a + 1..frames.len() {
-                        if frames[a].node == frames[b].node {
-                            out.violation(
-                                "c13.same_target_twice",
-                                format!("executions {a} and {b} (page offset {}) both went to node {}: {ctx}", frames[a].page, frames[a].node),
-                            );
-                        }
+            }
+            // (c) no two executions use the same plan target - also when executions move on
+            // to further targets (Default policy: every scripted failure is answered with
+            // "next target", never "same target"): all executions of a request draw from
+            // ONE plan, which names every node once.
+            for a in 0..frames.len() {
+                for b in a + 1..frames.len() {
+                    if frames[a].node == frames[b].node {
+                        out.violation(
+                            "c13.same_target_twice",
+                            format!("attempts {a} and {b} (page offset {}) both went to node {}: {ctx}", frames[a].page, frames[a].node),
+                        );
                     }
                 }
             }
